@@ -31,6 +31,10 @@ struct ThreadRec {
     std::atomic<int> park{None};
     std::atomic<const void *> parkAddr{nullptr};
     std::atomic<uint64_t> parkStamp{0};
+    // Set by the harness while the thread is inside a call of the component under test: every mutex and condition
+    // variable it touches then counts as watched, wherever the implementation keeps them (a refactoring may move
+    // them out of the watched object, e.g. into queue nodes).
+    std::atomic<int> scope{0};
     // thread-private bookkeeping, read by the owning thread only
     uint64_t firstWatchedPark = 0;      // stamp of first cond_wait entry on a watched condvar since reset
     uint64_t watchedParks = 0;          // number of cond_wait entries on watched condvars
@@ -60,6 +64,7 @@ int parkedOn(const void *base, size_t len);
 struct Delays {
     // probabilities in permille, per site; maxUs = upper bound of one injected delay
     unsigned beforeLock = 0, afterUnlock = 0, condEntry = 0, afterWake = 0, beforeNotify = 0, threadStart = 0;
+    unsigned spurious = 0;              // a watched cond_wait returns without having been notified (allowed by POSIX and the C++ standard)
     unsigned afterCreate = 0;           // the creator is held up right after pthread_create returned (the new thread runs ahead)
     unsigned maxUs = 100;
     unsigned threadStartMaxUs = 1000;
@@ -70,7 +75,7 @@ void disableDelays();
 // counters of injected delays per site (evidence)
 struct Counters {
     std::atomic<uint64_t> beforeLock{0}, afterUnlock{0}, condEntry{0}, afterWake{0}, beforeNotify{0}, threadStart{0}, afterCreate{0};
-    std::atomic<uint64_t> condWaits{0}, watchedCondWaits{0}, creates{0}, joins{0};
+    std::atomic<uint64_t> condWaits{0}, watchedCondWaits{0}, creates{0}, joins{0}, spurious{0};
 };
 Counters &counters();
 
